@@ -1,6 +1,7 @@
 pub mod c01;
 pub mod c02;
 pub mod c03;
+pub mod c05;
 pub mod c07;
 pub mod c09;
 pub mod c10;
@@ -13,6 +14,8 @@ pub fn all() -> Vec<Box<dyn Prop>> {
         Box::new(c01::C01),
         Box::new(c02::C02),
         Box::new(c03::C03),
+        Box::new(c05::C05),
+        Box::new(c05::C06),
         Box::new(c07::C07),
         Box::new(c07::C08),
         Box::new(c09::C09),
